@@ -279,11 +279,32 @@ static std::string slurp(const std::string& path) {
     return std::string{std::istreambuf_iterator<char>{in}, std::istreambuf_iterator<char>{}};
 }
 
-static void write_file(const std::string& path, const std::string& fmt, Input& in) {
+// mode 0: the whole buffer in one call; 1: item by item; 2: mixed — the Writer API allows any
+// interleaving of operator()(const Item&) and operator()(Buffer&&), the order of the objects
+// in the file must be the order of the calls (seed C01-4)
+static void write_file(const std::string& path, const std::string& fmt, Input& in, int mode = 0) {
     osmium::io::File file{path, fmt};
     osmium::io::Writer writer{file, in.header, osmium::io::overwrite::allow};
     if (!in.empty) {
-        writer(std::move(in.buffer));
+        if (mode == 0) {
+            writer(std::move(in.buffer));
+        } else {
+            std::vector<const osmium::memory::Item*> items;
+            for (const auto& item : in.buffer) items.push_back(&item);
+            std::size_t i = 0;
+            int phase = 0;
+            while (i < items.size()) {
+                const std::size_t n = mode == 1 ? items.size() : 1 + (i + static_cast<std::size_t>(phase)) % 3;
+                if (mode == 1 || phase % 2 == 0) {
+                    for (std::size_t k = 0; k < n && i < items.size(); ++k, ++i) writer(*items[i]);
+                } else {
+                    osmium::memory::Buffer part{1024, osmium::memory::Buffer::auto_grow::yes};
+                    for (std::size_t k = 0; k < n && i < items.size(); ++k, ++i) { part.add_item(*items[i]); part.commit(); }
+                    writer(std::move(part));
+                }
+                ++phase;
+            }
+        }
     }
     writer.close();
 }
@@ -387,12 +408,15 @@ int main(int argc, char** argv) {
                 Input in;
                 parse_objects(w, 4, in);
                 std::string path = base + "." + w[1];
-                if (w[3] == "gz") path += ".gz";
-                else if (w[3] == "bz2") path += ".bz2";
-                else if (w[3] != "none") throw bad_op{};
+                int mode = 0;
+                std::string comp = w[3];
+                if (comp.size() > 2 && comp[comp.size() - 2] == ':') { mode = comp.back() - '0'; comp.resize(comp.size() - 2); }
+                if (comp == "gz") path += ".gz";
+                else if (comp == "bz2") path += ".bz2";
+                else if (comp != "none") throw bad_op{};
                 std::string res;
                 try {
-                    write_file(path, format_string(w[1], o, true), in);
+                    write_file(path, format_string(w[1], o, true), in, mode);
                     try {
                         osmium::io::File file{path, format_string(w[1], o, false)};
                         osmium::io::Reader reader{file};
